@@ -16,10 +16,49 @@ From CppUVerif Require Import gen.Gen_Common lib.CInt.
 Import ListNotations.
 Local Open Scope Z_scope.
 
+(* ------------------------------------------------------------------ check kinds *)
+(* The assert entry points a test statement can go through.
+   K..: the member functions of UtestShell in src/CppUTest/Utest.cpp, called on UtestShell::getCurrent() with the default terminator
+        argument getCurrentTestTerminator() (assertCstrNoCaseEqual / assertCstrContains / assertCstrNoCaseContains have no terminator
+        parameter and use failWith(failure) = the same current terminator): a NormalTestTerminator, i.e. throw CppUTestFailedException
+        in a build with exceptions, longjmp in a build without.  KBinaryZero = assertBinaryEqual with length 0.
+   C..: the functions of src/CppUTest/TestHarness_c.cpp; each calls one of the member functions above with
+        UtestShell::getCurrentTestTerminatorWithoutExceptions() (longjmp in both builds).  CMemcmpZero = CHECK_EQUAL_C_MEMCMP_LOCATION
+        with size 0.
+   MCompare: the macro CHECK_COMPARE_LOCATION of include/CppUTest/UtestMacros.h, which evaluates the comparison ITSELF and calls
+        assertCompare(false, ...) only when it does not hold.
+   Every check statement carries [agree] (do the operands handed over satisfy the asserted relation?) and the location (file, line)
+   handed to the function. *)
+Inductive ckind :=
+  | KTrue | KCstrEqual | KCstrNEqual | KCstrNoCaseEqual | KCstrContains | KCstrNoCaseContains | KLongs | KULongs | KLongLongs
+  | KULongLongs | KSignedBytes | KPointers | KFunctionPointers | KDoubles | KEquals | KBinary | KBinaryZero | KBits | KCompare | KFail
+  | CBool | CInt | CUInt | CLong | CULong | CLongLong | CULongLong | CReal | CChar | CUByte | CSByte | CString | CPointer
+  | CMemcmp | CMemcmpZero | CBits | CFailText | CFail | CCheck
+  | MCompare.
+(* is the assert function entered at all?  Every kind but the macro calls its function unconditionally. *)
+Definition called (k : ckind) (agree : bool) : bool := match k with MCompare => negb agree | _ => true end.
+(* what the function decides once entered, AFTER its first statement getTestResult()->countCheck(): fail(...) has no operands and
+   always fails; assertBinaryEqual returns on length == 0 before it looks at the operands (NULL or different contents included);
+   every other function fails exactly when the operands do not satisfy the relation (UtestShell::assertCompare included: it is
+   counted whether or not the comparison holds -- only the macro in front of it skips the call) *)
+Definition fn_passes (k : ckind) (agree : bool) : bool :=
+  match k with KFail | CFailText | CFail => false | KBinaryZero | CMemcmpZero => true | _ => agree end.
+Definition c_style (k : ckind) : bool :=
+  match k with
+  | CBool | CInt | CUInt | CLong | CULong | CLongLong | CULongLong | CReal | CChar | CUByte | CSByte | CString | CPointer
+  | CMemcmp | CMemcmpZero | CBits | CFailText | CFail | CCheck => true
+  | _ => false
+  end.
+(* the two facts the property needs about a check statement: does the test go on after it, and how much does it add to "checks" *)
+Definition passes (k : ckind) (agree : bool) : bool := negb (called k agree) || fn_passes k agree.
+Definition counted (k : ckind) (agree : bool) : N := if called k agree then 1%N else 0%N.
+
 (* ------------------------------------------------------------------ programs *)
 (* file: 0 = the test's own file, 1 = another file.  SFailX = C++-style failing check (UtestShell::fail through the current
-   terminator), SFailC = C-style (FAIL_TEXT_C_LOCATION, TestTerminatorWithoutExceptions), SCheck = a passing check. *)
-Inductive stmt := SNop | SCheck | SFailX (file line : N) | SFailC (file line : N) | SThrowStd | SThrowOther.
+   terminator), SFailC = C-style (FAIL_TEXT_C_LOCATION, TestTerminatorWithoutExceptions), SCheck = a passing check (assertTrue),
+   SCheckK k agree file line = a check of kind k at the location (file, line), which is NOT the TEST's own location. *)
+Inductive stmt := SNop | SCheck | SFailX (file line : N) | SFailC (file line : N) | SThrowStd | SThrowOther
+                | SCheckK (k : ckind) (agree : bool) (file line : N).
 Record test := mkTest { t_ignored : bool; t_sel : bool; t_line : N;
                         t_setup : list stmt; t_body : list stmt; t_teardown : list stmt;
                         t_pre : list N; t_post : list N }.    (* lines of the failures the plugin adds before/after the test *)
@@ -114,6 +153,14 @@ Definition exec_stmt (exc : bool) (i ph k : N) (x : stmt) (s : st) : st * outcom
   | SFailC f l => long_jmp (add_failure (mkF i f l 0) (count one_check s))    (* TestTerminatorWithoutExceptions *)
   | SThrowStd => (s, OThrow XStd)
   | SThrowOther => (s, OThrow XOther)
+  | SCheckK k a f l =>
+      if called k a then
+        let s := count one_check s in                                           (* getTestResult()->countCheck(): first statement of every assert function *)
+        if fn_passes k a then (s, ONormal)
+        else let s := add_failure (mkF i f l 0) s in                            (* failWith(XxxFailure(this, fileName, lineNumber, ...), terminator) *)
+             if c_style k then long_jmp s                                       (* TestTerminatorWithoutExceptions *)
+             else if exc then (s, OThrow XFailed) else long_jmp s               (* NormalTestTerminator *)
+      else (s, ONormal)                                                         (* the macro found the comparison true: no call *)
   end.
 Fixpoint exec_stmts (exc : bool) (i ph k : N) (l : list stmt) (s : st) : st * outcome :=
   match l with
@@ -250,9 +297,10 @@ Definition run (exc : bool) (scn : scenario) : obs := fst (run_from exc scn st0)
 
 (* ------------------------------------------------------------------ spec: what the property demands of an observation.
    Written from the program text alone (no machine state, no jump bookkeeping). *)
-Definition is_pass (x : stmt) : bool := match x with SNop | SCheck => true | _ => false end.
+Definition is_pass (x : stmt) : bool := match x with SNop | SCheck => true | SCheckK k a _ _ => passes k a | _ => false end.
 Definition is_throw (x : stmt) : bool := match x with SThrowStd | SThrowOther => true | _ => false end.
-Definition counts_check (x : stmt) : bool := match x with SCheck | SFailX _ _ | SFailC _ _ => true | _ => false end.
+Definition counts_check (x : stmt) : bool :=
+  match x with SCheck | SFailX _ _ | SFailC _ _ => true | SCheckK k a _ _ => (0 <? counted k a)%N | _ => false end.
 (* the statements of a phase that execute: up to and including the first one that does not pass *)
 Fixpoint executed (l : list stmt) : list stmt :=
   match l with [] => [] | x :: r => if is_pass x then x :: executed r else [x] end.
@@ -269,6 +317,7 @@ Definition stmt_failure (i : N) (t : test) (x : stmt) : list frec :=
   match x with
   | SFailX f l | SFailC f l => [mkF i f l 0]
   | SThrowStd | SThrowOther => [mkF i 0 (t_line t) 1]
+  | SCheckK k a f l => if passes k a then [] else [mkF i f l 0]         (* a failed check: once, at the location it was given *)
   | _ => []
   end.
 Definition want_fails (i : N) (t : test) : list frec :=
